@@ -27,6 +27,9 @@
 (*   10 + c = the process died after c store mutations; 20 + j / 30 + j =  *)
 (*   the driver made the j-th RollbackLastBlock call of the message on the *)
 (*   block-header / filter-header store fail.                              *)
+(*   WriteCF: p = 0 plain; 40 + j = the driver armed the j-th FetchHeader /*)
+(*   FetchHeaderAncestors call of the step on the block-header store to    *)
+(*   fail (res = "err" if the step made that call and returned its error). *)
 (* C04 (slice): SyncPeerIsConnected - the sync peer the client reports is  *)
 (*   none or a peer that is connected by the environment's own             *)
 (*   NewPeer/DonePeer steps (abs.conn).                                    *)
